@@ -4,9 +4,20 @@
 Expressions: literals, user variables, globals, assignment expressions (`:=`), side-effecting `tick`s, `+`,
 conditional expressions, calls with positional and keyword arguments, tuples, subscripts.  The evaluator threads
 an environment and an effect log (order and multiplicity of side effects are observable).  `rw` is the rewrite
-of `recurse(a0, ..., an)` into `MAP[(type(__TMPk_0 := a0'), ...)](__TMPk_0, ...)`, threading the temporary
-counter exactly as the code threads `next(self.count)` (outer call first, nested calls after).
+of `recurse(a0, ..., an, k1=e1, ...)` into
+`MAP[(type(__TMPk_0 := a0'), ..., ('k1', type(__TMPk_k1 := e1')), ...)](__TMPk_0, ..., k1=__TMPk_k1, ...)`
+and of `call_next(...)` into the same thing with the key tuple starting with the current method's code object
+(`MAP[(CODE, type(...), ...)](...)`), threading the temporary counter exactly as the code threads
+`next(self.count)`: the call's own prefix first, then the positional arguments in order, then the keyword values in
+order (nested calls after the outer one).
+Reference semantics of the un-rewritten calls: the global `recurse` is the dispatcher (`G.dispatchObj`: looks the key of
+the actual arguments up in `World.lookup` and applies the handler), the global `call_next` is a second dispatcher
+(`G.nextObj`) which looks up `code World.code :: key` in the same table, `World.code` being the code of the method
+whose body is being rewritten.
 Variable names are structured (`user s` / `tmp k slot`): "user code does not use `__TMP...` names" is syntactic.
+Not modelled: starred arguments and `**kwargs` (the real rewrite leaves calls with a starred positional argument
+alone), the leading `self` of methods, the `__SUBTLER_TYPE` variant of `type`, a bare (uncalled) `call_next`
+(`UsageError` at rewrite time; here `rw` leaves the name alone).
 -/
 set_option autoImplicit false
 namespace Ovld.Rw
@@ -14,7 +25,7 @@ namespace Ovld.Rw
 inductive KeyElt | pos (c : Nat) | kw (name : String) (c : Nat) | code (n : Nat)
 deriving DecidableEq, Repr
 
-inductive G | typeFn | mapObj | dispatchObj | codeObj (n : Nat) | other (n : Nat)
+inductive G | typeFn | mapObj | dispatchObj | nextObj | codeObj (n : Nat) | other (n : Nat)
 deriving DecidableEq, Repr
 
 inductive Val
@@ -53,6 +64,7 @@ structure World where
   globals : String → Option Val
   classOf : Val → Nat
   lookup : List KeyElt → Except Exn Nat                       -- the table: key ↦ handler
+  code : Nat                                                  -- code object of the method being rewritten (`call_next`)
   applyFn : Nat → List Val → List (String × Val) → Log → Except Exn Val × Log   -- user method bodies
 
 abbrev M := Env → Log → (Except Exn Val × Env × Log)
@@ -71,6 +83,9 @@ def applyVal (W : World) (f : Val) (args : List Val) (kws : List (String × Val)
     | [v], [] => (.ok (.ty (W.classOf v)), l)
     | _, _ => (.error .typeError, l)
   | .g .dispatchObj => match W.lookup (keyOf W args kws) with
+    | .ok h => W.applyFn h args kws l
+    | .error e => (.error e, l)
+  | .g .nextObj => match W.lookup (KeyElt.code W.code :: keyOf W args kws) with
     | .ok h => W.applyFn h args kws l
     | .error e => (.error e, l)
   | .fn h => W.applyFn h args kws l
@@ -139,7 +154,7 @@ def evalKws (W : World) : List (String × Expr) → Env → Log → (Except Exn 
     | (.error e, ρ', l') => (.error e, ρ', l')
 end
 
-/-! ### NameConverter.visit_Call for `recurse(...)` (no starred arguments), threading the temp counter -/
+/-! ### NameConverter.visit_Call for `recurse(...)` / `call_next(...)` (no starred arguments), threading the temp counter -/
 
 def typeCall (x : Name) (e : Expr) : Expr := .call (.glob "type") [.named x e] []
 
@@ -153,12 +168,18 @@ def rw : Expr → Nat → Expr × Nat
   | .add a b, k => let (a', k1) := rw a k; let (b', k2) := rw b k1; (.add a' b', k2)
   | .ite c a b, k => let (c', k1) := rw c k; let (a', k2) := rw a k1; let (b', k3) := rw b k2; (.ite c' a' b', k3)
   | .call f args kws, k =>
-    match f, kws with
-    | .glob "recurse", [] =>
-      -- tmp prefix index = k; children rewritten with counters from k+1 on
+    match f with
+    | .glob "recurse" =>
+      -- tmp prefix index = k; children rewritten with counters from k+1 on: positional arguments, then keyword values
       let (args', k1) := rwArgs args k 0 (k + 1)
-      (.call (.subscript (.glob "MAP") (.tuple args')) (tmpVars k 0 args) [], k1)
-    | _, _ =>
+      let (kws', k2) := rwKws kws k k1
+      (.call (.subscript (.glob "MAP") (.tuple (args' ++ kws'))) (tmpVars k 0 args) (tmpKws k kws), k2)
+    | .glob "call_next" =>
+      -- same, the key starts with the code object of the current method
+      let (args', k1) := rwArgs args k 0 (k + 1)
+      let (kws', k2) := rwKws kws k k1
+      (.call (.subscript (.glob "MAP") (.tuple (.glob "CODE" :: (args' ++ kws')))) (tmpVars k 0 args) (tmpKws k kws), k2)
+    | _ =>
       let (f', k0) := rw f k
       let (args', k1) := rwList args k0
       let (kws', k2) := rwKwList kws k1
@@ -194,7 +215,11 @@ def tmpKws : Nat → List (String × Expr) → List (String × Expr)
   | k, (n, _) :: es => (n, .var (.tmp k (.kw n))) :: tmpKws k es
 end
 
-/-! ### user code never mentions temporaries -/
+/-! ### well-formed user code: never mentions temporaries, no keyword repeated in a call (a SyntaxError in Python) -/
+def distinctNames : List String → Bool
+  | [] => true
+  | n :: ns => !ns.contains n && distinctNames ns
+
 mutual
 def userOnly : Expr → Bool
   | .lit _ => true
@@ -206,7 +231,7 @@ def userOnly : Expr → Bool
   | .tick _ e => userOnly e
   | .add a b => userOnly a && userOnly b
   | .ite c a b => userOnly c && userOnly a && userOnly b
-  | .call f args kws => userOnly f && userOnlyL args && userOnlyK kws
+  | .call f args kws => userOnly f && userOnlyL args && userOnlyK kws && distinctNames (kws.map Prod.fst)
   | .tuple es => userOnlyL es
   | .pair _ e => userOnly e
   | .subscript e i => userOnly e && userOnly i
@@ -218,5 +243,30 @@ def userOnlyK : List (String × Expr) → Bool
   | (_, e) :: es => userOnly e && userOnlyK es
 end
 
+/-! ### expressions without any call of the globals `recurse` / `call_next` (left alone by `rw`) -/
+def isRecName : Expr → Bool
+  | .glob g => g == "recurse" || g == "call_next"
+  | _ => false
+
+mutual
+def noRecCall : Expr → Bool
+  | .lit _ => true
+  | .var _ => true
+  | .glob _ => true
+  | .named _ e => noRecCall e
+  | .tick _ e => noRecCall e
+  | .add a b => noRecCall a && noRecCall b
+  | .ite c a b => noRecCall c && noRecCall a && noRecCall b
+  | .call f args kws => !isRecName f && noRecCall f && noRecCallL args && noRecCallK kws
+  | .tuple es => noRecCallL es
+  | .pair _ e => noRecCall e
+  | .subscript e i => noRecCall e && noRecCall i
+def noRecCallL : List Expr → Bool
+  | [] => true
+  | e :: es => noRecCall e && noRecCallL es
+def noRecCallK : List (String × Expr) → Bool
+  | [] => true
+  | (_, e) :: es => noRecCall e && noRecCallK es
+end
 
 end Ovld.Rw
